@@ -11,6 +11,7 @@ import (
 	"regexp/syntax"
 	"sort"
 	"strings"
+	"unicode/utf8"
 
 	"verif/harness/internal/hx"
 )
@@ -66,6 +67,11 @@ var valueProfiles = [][]string{
 	{"a", "aa", "aab", "ab", "aba", "b", "ba", "bab"},
 	{"a,b", "a=b", "a b", "x,y=z", "é", "日本", "a\x00b", "a\x01", "\x02", "a\\b", "it's", "\"q\"", "1", "0", "a1", "a"},
 	{"a.b", "axb", "a(b", "x|y", "[w]", "a*", "^a", "a$", "a+b", "w", "a"},
+	// hostile to the item encoding: separator bytes, their escape codes '0' '1' '2' (a NUL followed by
+	// '0' reads like an escaped NUL), the composite-key marker 0xfe, 0xff, values that extend each
+	// other by such bytes, a value longer than 255 bytes
+	{"\x00", "\x01", "\x02", "\x00\x00", "\x000", "\x001", "a", "a\x00", "a\x01", "a\x01b", "a\x02", "a0", "a1", "\xff", "\xff\xfe", "\xfe", "0", "1",
+		"LLLLLLLLLLLLLLLLLLLLLLLLLLLLLLLLLLLLLLLLLLLLLLLLLLLLLLLLLLLLLLLLLLLLLLLLLLLLLLLLLLLLLLLLLLLLLLLLLLLLLLLLLLLLLLLLLLLLLLLLLLLLLLLLLLLLLLLLLLLLLLLLLLLLLLLLLLLLLLLLLLLLLLLLLLLLLLLLLLLLLLLLLLLLLLLLLLLLLLLLLLLLLLLLLLLLLLLLLLLLLLLLLLLLLLLLLLLLLLLLLLLLLLLLLLLLLLLLLLLLLLLLLLLLLLLLLLLLLLLLLLLLLLLLLLLLLLLLLLLLLLLLLLLLLLLLLLLLLLLLLLLLLLLLLL\x01"},
 }
 
 var keyProfiles = [][]string{
@@ -73,9 +79,13 @@ var keyProfiles = [][]string{
 	{"host", "ho", "hos"},
 	{"k,1", "k=2", "k 3", "ké", "k\x01", "host"},
 	{"host", "dc", "r.e"},
+	{"host", "k\x00", "k\x01", "\xfe", "k\x02v"},
 }
 
-var mstNames = []string{"m_0000", "m0_0000", "cpu load_0000", "m,x_0000", "m__0000", "ü_0000"}
+var mstNames = []string{"m_0000", "m0_0000", "cpu load_0000", "m,x_0000", "m__0000", "ü_0000",
+	// bytes 0-2 and 0xfe in the name; a name longer than 127 bytes (its length takes two varuint bytes)
+	"m\x00\x01_0000", "\xfem\x02_0000",
+	"NNNNNNNNNNNNNNNNNNNNNNNNNNNNNNNNNNNNNNNNNNNNNNNNNNNNNNNNNNNNNNNNNNNNNNNNNNNNNNNNNNNNNNNNNNNNNNNNNNNNNNNNNNNNNNNNNNNNNNNNNNNNNNNNNNNNNNNNNNNN_0000"}
 
 type history struct {
 	profile int
@@ -86,7 +96,7 @@ type history struct {
 }
 
 func genHistory(r *hx.Rng, big bool) *history {
-	h := &history{profile: r.Intn(4)}
+	h := &history{profile: r.Intn(len(valueProfiles))}
 	nm := 1 + r.Intn(3)
 	perm := r.Intn(len(mstNames))
 	for i := 0; i < nm; i++ {
@@ -95,7 +105,7 @@ func genHistory(r *hx.Rng, big bool) *history {
 	h.keys = keyProfiles[h.profile]
 	h.vals = valueProfiles[h.profile]
 	if r.Chance(25) { // mixed alphabet
-		h.vals = append(append([]string{}, h.vals...), valueProfiles[r.Intn(4)]...)
+		h.vals = append(append([]string{}, h.vals...), valueProfiles[r.Intn(len(valueProfiles))]...)
 	}
 	n := 3 + r.Intn(12)
 	if r.Chance(20) {
@@ -143,6 +153,11 @@ func seriesText(h *history, s *seriesT) string {
 }
 
 func regexSafe(s string) bool {
+	if !utf8.ValidString(s) {
+		// Go's regexp reads an invalid byte as U+FFFD: a regex made from such a value says nothing
+		// about the index
+		return false
+	}
 	for i := 0; i < len(s); i++ {
 		if s[i] < 0x20 {
 			return false
